@@ -84,3 +84,26 @@ Theorem C20_mult_unscale_formula : forall (scaler : option sv) (obj_scaler : opt
   nth k (mult_unscale scaler obj_scaler mult) 0 == nth k mult 0 * (osv_get 1 scaler k / dflt 1 obj_scaler).
 Proof. exact mult_unscale_nth. Qed.
 Print Assumptions C20_mult_unscale_formula.
+
+(* _compute_scaled_bounds: what the optimizer receives are those images, exchanged (sentinels
+   included) exactly at the elements whose scaler is negative ... *)
+Theorem C20_scaled_bounds_spec :
+  forall (lower upper adder scaler : option sv) (size k : nat),
+  (k < size)%nat ->
+  let lo := nth k (scale_bound lower adder scaler size true) 0 in
+  let hi := nth k (scale_bound upper adder scaler size false) 0 in
+  let r := compute_scaled_bounds lower upper adder scaler size in
+  (is_neg (osv_get 1 scaler k) = false -> nth k (fst r) 0 = lo /\ nth k (snd r) 0 = hi) /\
+  (is_neg (osv_get 1 scaler k) = true ->
+     nth k (fst r) 0 = (if Qle_bool INF_BOUND hi then - INF_BOUND else hi) /\
+     nth k (snd r) 0 = (if Qle_bool lo (- INF_BOUND) then INF_BOUND else lo)).
+Proof. exact scaled_bounds_spec. Qed.
+Print Assumptions C20_scaled_bounds_spec.
+
+(* ... so that ordered model bounds stay ordered in optimizer space for either sign of the scaler *)
+Theorem C20_scaled_bounds_ordered : forall l u a s : Q,
+  l <= u -> ~ s == 0 ->
+  let lo := T a s l in let hi := T a s u in
+  (is_neg s = false -> lo <= hi) /\ (is_neg s = true -> hi <= lo).
+Proof. exact scaled_bounds_ordered. Qed.
+Print Assumptions C20_scaled_bounds_ordered.
